@@ -565,3 +565,22 @@ func verdict(a, r bool) string {
 }
 
 var _ = sort.Strings
+
+// ---- exported fixture for other checks (C18) ----
+
+const (
+	Src = src
+	Dst = dst
+)
+
+// ContractAddress is the configured XIBC contract of the fixture.
+func ContractAddress() []byte { return addrX.Bytes() }
+
+// Fixture builds a small state world in which the configured contract stores commitment #1 = h1 and returns
+// the state root, the JSON proof for that slot and the committed value.
+func Fixture() (root common.Hash, proof []byte, value []byte) {
+	w := makeWorld(map[string]string{"commit#1": "h1", "unrelated": "h2"}, true, true, map[string]string{"commit#1": "h2"})
+	p := honest(w, addrX, slotOf("commit", 1))
+	bz, _ := json.Marshal(p)
+	return w.root, bz, values["h1"]
+}
